@@ -9,6 +9,7 @@ S: the implementation itself, the same document translated R times -- in one pro
    test documents (palettes, string lists, ...), mutants.
 """
 import hashlib
+import re
 from . import common as C
 from . import docs as D
 from . import qml
@@ -122,6 +123,43 @@ def homonym_components(ctx, vh, rng):
     shutil.rmtree(work, ignore_errors=True)
 
 
+def shared_context_documents(ctx, vh, rng, wide, others):
+    """documents translated before in the same process, through ONE BuildContext (as the command line does): the same document must give the same form and the
+    same diagnostics first in the run, last in the run and alone.  The documents share ids and generated names (o1, srcS, action, label ...), so anything the
+    context remembers by name is visible."""
+    from . import c11
+    from . import qml
+    docs = list(wide[:6]) + [d for d in others if "\x00" not in d and "import \"" not in d][:60 if ctx.tier == "thorough" else 24]
+    for _ in range(40 if ctx.tier == "thorough" else 12):
+        t = c11.TreeGen(rng, misplace=0.0, max_depth=3).document()
+        c11.assign_names(t)
+        docs.append(c11.render(t))
+    # pairs built to collide: the generated name `action` is a separator in one document and an ordinary action in the other, `label` a buddy target here and not there
+    docs += ["import qmluic.QtWidgets\nQMenu {\n    QAction { id: cut; text: \"Cut\" }\n    QAction { separator: true }\n    QAction { text: \"Paste\" }\n}\n",
+             "import qmluic.QtWidgets\nQMenu {\n    QAction { text: \"About\" }\n    QAction { separator: true }\n    QAction { id: cut; separator: true }\n}\n",
+             "import qmluic.QtWidgets\nQWidget {\n    QLabel { text: \"a\" }\n    QLabel { id: cut; text: \"b\"; buddy: edit }\n    QLineEdit { id: edit }\n}\n",
+             "import qmluic.QtWidgets\nQWidget {\n    QLineEdit { id: edit; text: cut.text }\n    QLabel { id: cut }\n    QLabel { text: edit.text }\n}\n"]
+    rng.shuffle(docs)
+    for _ in docs:
+        ctx.dist("shared-context")
+    res = qml.run_docs_shared(vh, docs, "c08", group=6, orders=("forward", "reverse"))
+    alone = qml.run_docs_shared(vh, docs, "c08a", group=1)["forward"]
+
+    def dg(r):
+        if not isinstance(r, dict):
+            return ("?", str(r)[:100])
+        return (re.sub(r"<class>Doc\d+</class>", "<class>Doc</class>", r["ui"]) if r.get("ui") else r.get("ui"), tuple(sorted((x["msg"], x["kind"], x["start"], x["end"]) for x in r.get("diags", []))), r.get("syntax_error"), r.get("not_loaded"))
+    for i, d in enumerate(docs):
+        a, f, b = dg(alone[i]), dg(res["forward"][i]), dg(res["reverse"][i])
+        ctx.count(("shared", d), True)
+        if not (a == f == b):
+            g0 = (i // 6) * 6
+            ctx.violation("the output for a document depends on the documents translated before it through the same BuildContext (alone / forward / reverse agree: %s %s)" % (a == f, a == b),
+                          {"qml": d, "same_run": docs[g0:g0 + 6], "position_in_run": i - g0, "impl_output": [a[0], f[0], b[0]], "oracle_output": a[0],
+                           "theorem_or_correspondence": "S: a document's outputs are a function of the document and the types it names"})
+    ctx.coverage["shared_context_documents"] = len(docs)
+
+
 def run(ctx):
     ctx.proof_leg(TARGETS, PINS, k_targets=U.K_TARGETS)
     vh = ctx.need_harness()
@@ -201,6 +239,7 @@ def run(ctx):
     ctx.coverage["sha256_of_all_outputs"] = hashlib.sha256(repr(sorted((i, by_case[i][0]) for i in by_case)).encode()).hexdigest()
     ctx.sample({"qml": wide[0]})
     homonym_components(ctx, vh, rng)
+    shared_context_documents(ctx, vh, rng, wide, others)
     ctx.coverage["rule"] = ("wide generated documents (all catalogue properties per object, all font/geometry members, all handlers, attached bindings; half with 15%% ill-typed "
                             "bindings) in the three modes, the repository's example/test documents and mutants in generate mode; each translated %d times, every round in a "
                             "different order, spread over fresh processes; non-trivial = wide document or at least 2 diagnostics" % reps)
